@@ -28,6 +28,29 @@ class Proto(G.Gram):
     def is_msg(self, node) -> bool:
         return node[0] == "nt" and len(node) > 2 and node[2] is not None
 
+    def is_invisible(self, node) -> bool:
+        return self.is_msg(node) and node[2] in self.externals and node[3] in self.externals
+
+    def nullable(self, node, seen=()) -> bool:
+        # a message between two external parties is sliced away: for Fandango it is the empty word
+        if node[0] == "nt" and self.is_invisible(node):
+            return True
+        if node[0] == "nt":
+            if node[1] in seen or node[1] not in self.rules:
+                return False
+            return self.nullable(self.rules[node[1]], seen + (node[1],))
+        if node[0] == "cat":
+            return all(self.nullable(x, seen) for x in node[1])
+        if node[0] == "alt":
+            return any(self.nullable(x, seen) for x in node[1])
+        if node[0] in ("star", "opt"):
+            return True
+        if node[0] == "plus":
+            return self.nullable(node[1], seen)
+        if node[0] == "rep":
+            return node[2] == 0 or self.nullable(node[1], seen)
+        return super().nullable(node, seen)
+
     def party_code(self) -> str:
         return "from simfw.parties import %s\n" % ", ".join(self.fuzzers + self.externals)
 
@@ -65,9 +88,19 @@ def _s_atom(ch, p: Proto, cfg, avail, depth):
     return _s_expr(ch, p, cfg, avail, depth + 1)
 
 
+def _visible_occ(ch, p: Proto, cfg):
+    for _ in range(20):
+        o = _occ(ch, p, cfg)
+        if not p.is_invisible(o):
+            return o
+    name = sorted(n for n, m in p.msg_types.items() if not (m["sender"] in p.externals and m["recipient"] in p.externals))[0]
+    m = p.msg_types[name]
+    return ("nt", name, m["sender"], m["recipient"])
+
+
 def _nonnull(ch, p: Proto, cfg, body):
     if p.nullable(body):
-        return ("cat", (body, _occ(ch, p, cfg)))
+        return ("cat", (body, _visible_occ(ch, p, cfg)))
     return body
 
 
@@ -98,8 +131,8 @@ def _s_cat(ch, p: Proto, cfg, avail, depth):
         # keep them apart unless this spec opted in
         out = [items[0]]
         for x in items[1:]:
-            if p.nullable(out[-1]) and p.nullable(x):
-                out.append(_occ(ch, p, cfg))
+            if p.nullable(out[-1]) and p.nullable(x) and not (p.is_invisible(out[-1]) or p.is_invisible(x)):
+                out.append(_visible_occ(ch, p, cfg))
             out.append(x)
         items = out
     return items[0] if len(items) == 1 else ("cat", tuple(items))
@@ -129,6 +162,17 @@ def first_msgs(p: Proto, node, seen=()) -> frozenset:
     return first_msgs(p, node[1], seen)
 
 
+def _has_invisible(p: Proto, node) -> bool:
+    k = node[0]
+    if k == "nt":
+        return p.is_invisible(node)
+    if k in ("cat", "alt"):
+        return any(_has_invisible(p, x) for x in node[1])
+    if k in ("star", "plus", "opt", "rep"):
+        return _has_invisible(p, node[1])
+    return False
+
+
 def _s_expr(ch, p: Proto, cfg, avail, depth):
     n = 1 + ch.weighted([5, 3, 1], "spec", "salt")
     alts = []
@@ -136,6 +180,11 @@ def _s_expr(ch, p: Proto, cfg, avail, depth):
     for _ in range(n):
         for _try in range(3):
             a = _s_cat(ch, p, cfg, avail, depth)
+            if p.nullable(a) and _has_invisible(p, a):
+                # Fandango's slicing drops an alternative that consists of invisible messages only
+                # instead of turning it into the empty word; what the sliced spec should mean there is
+                # not pinned down by the property, so such alternatives are not generated
+                a = ("cat", (a, _visible_occ(ch, p, cfg)))
             fs = first_msgs(p, a)
             if a not in alts and (not cfg.get("ll1_alternatives", True) or not (fs & firsts)):
                 alts.append(a)
@@ -164,7 +213,12 @@ def gen_protocol(ch, cfg: dict) -> Proto:
     for i, kw in enumerate(kws):
         name = "m%d" % i
         from_fuzzer = (i % 2 == 0) if i < 2 else bool(ch.draw(2, "spec", "dir"))
-        if from_fuzzer:
+        invisible = i >= 2 and len(p.externals) >= 2 and cfg.get("ext_to_ext") and ch.coin(0.4, "spec", "invisible-type")
+        if invisible:
+            # a message between two external parties: Fandango never sees it (sliced out of the grammar)
+            sender = ch.pick(p.externals, "spec", "snd")
+            recipient = ch.pick([e for e in p.externals if e != sender], "spec", "rcp")
+        elif from_fuzzer:
             sender = ch.pick(p.fuzzers, "spec", "snd")
             recipient = ch.pick(p.externals, "spec", "rcp")
         else:
@@ -204,10 +258,10 @@ def gen_protocol(ch, cfg: dict) -> Proto:
     for name in reversed(names):
         node = _s_expr(ch, p, cfg, list(built), 0)
         if p.nullable(node):
-            node = ("cat", (node, _occ(ch, p, cfg))) if node[0] != "cat" else ("cat", node[1] + (_occ(ch, p, cfg),))
+            node = ("cat", (node, _visible_occ(ch, p, cfg))) if node[0] != "cat" else ("cat", node[1] + (_visible_occ(ch, p, cfg),))
         if ch.coin(0.2, "spec", "srec"):
             # right recursion: node | occ <self>
-            node = ("alt", (node, ("cat", (_occ(ch, p, cfg), ("nt", name)))))
+            node = ("alt", (node, ("cat", (_visible_occ(ch, p, cfg), ("nt", name)))))
         p.rules[name] = node
         built.append(name)
     reach = G.reachable(p)
@@ -365,12 +419,35 @@ def sample_msg_in_history(p: Proto, ch, mtype: str, want_ok: bool, history_model
 
 
 def has_adjacent_nullables(p: Proto) -> bool:
+    """Two adjacent nullable items in a concatenation of the grammar *as Fandango sees it* (invisible
+    messages are removed by slicing, so they are neither items nor a source of nullability here)."""
+
+    def nullable(n, seen=()) -> bool:
+        k = n[0]
+        if k == "nt":
+            if p.is_msg(n):
+                return False
+            if n[1] in seen or n[1] not in p.rules:
+                return False
+            return nullable(p.rules[n[1]], seen + (n[1],))
+        if k == "cat":
+            return all(nullable(x, seen) for x in n[1] if not p.is_invisible(x))
+        if k == "alt":
+            return any(nullable(x, seen) for x in n[1])
+        if k in ("star", "opt"):
+            return True
+        if k == "plus":
+            return nullable(n[1], seen)
+        if k == "rep":
+            return n[2] == 0 or nullable(n[1], seen)
+        return False
+
     def walk(n) -> bool:
         k = n[0]
         if k == "cat":
-            items = n[1]
+            items = [x for x in n[1] if not p.is_invisible(x)]
             for a, b in zip(items, items[1:]):
-                if p.nullable(a) and p.nullable(b):
+                if nullable(a) and nullable(b):
                     return True
             return any(walk(x) for x in items)
         if k == "alt":
